@@ -9,6 +9,9 @@ import numpy as np
 import core
 from core import Fraction, frac, rat
 
+MODELLED = ["evo/core/trajectory.py:PosePath3D.project", "evo/core/trajectory.py:PosePath3D.__init__",
+            "evo/core/trajectory.py:Plane", "evo/core/transformations.py:euler_from_matrix", "evo/core/lie_algebra.py:so3_exp"]
+
 U = 64 * 2.0 ** -53
 TOL = U * 2                          # unit-vector entries: 64·2⁻⁵³·(|input| + |result|)
 MARGIN = Fraction(1, 2 ** 40)        # relative distance of cy² from _EPS² below which the branch is not compared
@@ -493,6 +496,7 @@ def shrink(case):
 
 def check(ctx):
     lean = core.lean_side(ctx.prop, ctx.tier)
+    core.drift(ctx, MODELLED)
     cases = list(gen_cases(ctx))
     evaluate(ctx, cases)
     core.shrink_all(ctx, shrink, evaluate)
